@@ -1074,6 +1074,58 @@ def rule_r10(prog, res):
                         'the service, and initialize runs without a request')
 
 
+# ------------------------------------------------------------------- R11
+def rule_r11(prog, res):
+    res.rule('R11', 'a placeholder in an HttpPattern address stands for one '
+             'path segment ([^/]*), and the URL-path fallback of the WSGI '
+             'transport only names the method when no pattern did')
+    h = prog.cls('spyne.protocol.http:HttpPattern')
+    f = h.methods.get('_compile_url_pattern')
+    if f is None:
+        raise AnalysisError('HttpPattern._compile_url_pattern', 'not found')
+    n = 0
+    for c in calls_in(f.node):
+        if call_name(c) != 'sub' or not c.args or not isinstance(
+                c.args[0], ast.Constant):
+            continue
+        v = c.args[0].value
+        t = v.decode('latin1') if isinstance(v, bytes) else v
+        if '(?P<' not in t:
+            continue
+        n += 1
+        ok = '[^/]*' in t and '.*' not in t.replace('[^/]*', '')
+        where = '%s:%d' % (f.module.relpath, c.lineno)
+        res.ob('R11', where, '_compile_url_pattern replaces a placeholder by '
+               '%r' % t, 'ok' if ok else 'VIOLATED')
+        if not ok:
+            res.finding('R11', 'HttpPattern._compile_url_pattern|segment|%s'
+                        % t, where, 'a placeholder of an address compiles to '
+                        '%r, which crosses "/": /shelf/{cat} answers to every '
+                        'URL below /shelf/, so /shelf/scifi/dune runs '
+                        'list_shelf and an unregistered /shelf/a/b/c runs a '
+                        'method instead of getting a not-found fault' % t)
+    res.floor('R11', 'placeholder substitutions in _compile_url_pattern', n, 4)
+    w = prog.cls('spyne.server.wsgi:WsgiApplication')
+    d = w.methods.get('decompose_incoming_envelope')
+    if d is None:
+        raise AnalysisError('WsgiApplication.decompose_incoming_envelope',
+                            'not found')
+    k = 0
+    for a in walk_no_defs(d.node):
+        if isinstance(a, ast.Assign) and any(
+                unparse(t) == 'ctx.method_request_string'
+                for t in a.targets) and 'PATH_INFO' in unparse(a.value):
+            k += 1
+            guardspec.check(res, 'R11', d, a, 'the URL-path fallback',
+                            allowed=[('ctx.method_request_string is None',
+                                      True)],
+                            required=[('ctx.method_request_string is None',
+                                       True)],
+                            key='WsgiApplication.decompose_incoming_envelope|'
+                                'fallback')
+    res.floor('R11', 'URL-path fallbacks', k, 1)
+
+
 def run(prog, res, tier):
     res.run_rule(rule_r1, prog, res, tier)
     res.run_rule(rule_r2, prog, res)
@@ -1085,6 +1137,7 @@ def run(prog, res, tier):
     res.run_rule(rule_r8, prog, res)
     res.run_rule(rule_r9, prog, res)
     res.run_rule(rule_r10, prog, res)
+    res.run_rule(rule_r11, prog, res)
 
 
 _P = 'spyne/protocol/_base.py'
@@ -1095,6 +1148,16 @@ _W = 'spyne/server/wsgi.py'
 _X = 'spyne/protocol/xml.py'
 
 MUTANTS = [
+    Mutant('full-placeholder-crosses-slashes', 'R11', 'fire',
+           'spyne/protocol/http.py',
+           in_func('HttpPattern._compile_url_pattern',
+                   "pattern = _full_pattern_re.sub(r'(?P<\\1>[^/]*)', pattern)",
+                   "pattern = _full_pattern_re.sub(r'(?P<\\1>.*)', pattern)"),
+           'segment'),
+    Mutant('fallback-when-no-params', 'R11', 'fire', _W,
+           in_func('WsgiApplication.decompose_incoming_envelope',
+                   "        if ctx.method_request_string is None:\n",
+                   "        if not params:\n"), 'fallback'),
     Mutant('duplicate-by-code-object', 'R8', 'fire', _I,
            in_func('Interface.process_method',
                    "if om is not method and om.function is not "
